@@ -147,7 +147,8 @@ def op_cases(v_int: int, s: str, lst: List[Any]) -> List[Tuple[Dict[str, Any], A
         for r in (v_int - 1, v_int, v_int + 1):
             out.append(({"type": "value", "key": "k", "op": op, "value": v_int, "value_type": "integer"}, {"k": str(r)}, REL[op](r, v_int), f"integer-{op}", True))
     norm = s.strip().lower()
-    for r in (norm, " " + norm.upper() + " ", norm + "x"):
+    # (the lower-case texts true / false are the translator's documented shorthand for a boolean test, covered by the eq/ne-bool cases above)
+    for r in (norm, " " + norm.upper() + " ", norm + "x") if norm not in ("true", "false") else ():
         for op in ("eq", "ne"):
             out.append(({"type": "value", "key": "k", "op": op, "value": norm, "value_type": "normalize"}, {"k": r}, REL[op](r.strip().lower(), norm), f"normalize-{op}", True))
     for r in (lst, ["zz"], []):
@@ -352,7 +353,8 @@ def campaign(run: common.Run) -> None:
     def body_dur(kind, num, den):
         check_duration(run, kind, Fraction(num, den if kind == "days" else 1), run.hyp_fail)
 
-    plain = st.text(alphabet="abcXYZ019_-", min_size=1, max_size=6)
+    # (strings that look like something else: booleans in any capitalisation, null, numbers)
+    plain = st.text(alphabet="abcXYZ019_-", min_size=1, max_size=6) | st.sampled_from(["True", "FALSE", "tRuE", "False", "TRUE", "None", "null", "Null", "1", "0", "yes", "no", "1.0", "-1", "present", "absent", "empty"])
     lsts = st.lists(st.sampled_from(["a", "b", "c", "ab", ""]), min_size=1, max_size=3, unique=True)
     common.drive(run, body_ops, {"v": st.one_of(st.integers(-3, 3), st.integers(-10**6, 10**6)), "s": plain, "lst": lsts}, 60 if q else 400, seed_salt=1, shrink=False)
     common.drive(run, body_time, {"days": st.one_of(st.integers(0, 40), st.integers(0, 4000))}, 60 if q else 300, seed_salt=2, shrink=False)
